@@ -186,6 +186,18 @@ fn step(ctx: &mut Ctx, t: &[&str]) -> String {
             (Some(a), Some(b), Some(c)) => okerr(ctx.app.send_tokens(Addr::unchecked(a), Addr::unchecked(b), &c)),
             _ => "bad-op".into(),
         },
+        // the keeper driven WITHOUT a transaction (as an `init_modules` / builder closure would): a failing
+        // transfer must still change nothing
+        ["sendr", a, b, c] => match (ctx.resolve(a), ctx.resolve(b), parse_coins(c)) {
+            (Some(a), Some(b), Some(c)) => {
+                let block = ctx.app.block_info();
+                okerr(ctx.app.init_modules(|router, api, storage| {
+                    use cw_multi_test::Module;
+                    router.bank.execute(api, storage, router, &block, Addr::unchecked(a), BankMsg::Send { to_address: b, amount: c })
+                }))
+            }
+            _ => "bad-op".into(),
+        },
         ["burn", a, c] => match (ctx.resolve(a), parse_coins(c)) {
             (Some(a), Some(c)) => okerr(ctx.app.execute(Addr::unchecked(a), BankMsg::Burn { amount: c }.into())),
             _ => "bad-op".into(),
@@ -447,7 +459,11 @@ pub fn gen_bank(rng: &mut Rng, thorough: bool) -> Vec<String> {
             let from = pick_debtor(rng, &ag, &rough);
             // self-transfers: 5% forced + whenever the uniformly picked recipient happens to be the sender (about 30% in all)
             let to = if rng.chance(5, 100) { from.clone() } else { ag.pick(rng) };
-            let verb = if rng.chance(1, 4) { "sendt" } else { "send" };
+            let verb = match rng.below(8) {
+                0 | 1 => "sendt",
+                2 => "sendr",
+                _ => "send",
+            };
             let c = gen_debit(rng, &rough, &from);
             if rough.debit(&from, &c) {
                 rough.credit(&to, &c);
